@@ -1,5 +1,6 @@
 SPECIFICATION Spec
 CONSTANTS MaxLen = 3
+EmitMod = 1
 Emit = TRUE
 Alphabet <- AlphaQuick
 INVARIANTS TypeOK DesignRefinesInfoset EmitCase
